@@ -5,7 +5,7 @@ import struct
 from hypothesis import strategies as st
 
 from .. import cmpx, fixed
-from ..runner import Hyp
+from ..runner import Enum, Hyp
 
 ID = "C17"
 TITLE = "Plot appearance options are honoured in the produced figure"
@@ -37,10 +37,10 @@ LEGLOC = {"upper_left": 2, "lower_right": 4, "center": 10, "upper_right": 1, "lo
 
 # option -> (kinds it is generated for, value strategy)
 OPTIONS = {
-    "title": (["line", "bar", "map", "pithist", "igncontrib", "obsfcst", "qq", "freq", "roc", "timeseries", "scatter", "marginal", "spreadskill", "error", "cond"], st.sampled_from(["My title", "Run 3 vs 4", "T"])),
-    "xlabel": (["line", "bar", "pithist", "igncontrib", "map", "obsfcst", "qq", "freq", "roc", "timeseries", "scatter", "marginal", "spreadskill", "error", "cond"], st.sampled_from(["lead (h)", "X"])),
-    "ylabel": (["line", "bar", "pithist", "igncontrib", "map", "obsfcst", "qq", "freq", "roc", "timeseries", "scatter", "marginal", "spreadskill", "error", "cond"], st.sampled_from(["error (K)", "Y"])),
-    "clabel": (["map"], st.sampled_from(["colour label", "C"])),
+    "title": (["line", "bar", "map", "pithist", "igncontrib", "obsfcst", "qq", "freq", "roc", "timeseries", "scatter", "marginal", "spreadskill", "error", "cond"], st.sampled_from(["My title", "Run 3 vs 4", "T", ""])),
+    "xlabel": (["line", "bar", "pithist", "igncontrib", "map", "obsfcst", "qq", "freq", "roc", "timeseries", "scatter", "marginal", "spreadskill", "error", "cond"], st.sampled_from(["lead (h)", "X", ""])),
+    "ylabel": (["line", "bar", "pithist", "igncontrib", "map", "obsfcst", "qq", "freq", "roc", "timeseries", "scatter", "marginal", "spreadskill", "error", "cond"], st.sampled_from(["error (K)", "Y", ""])),
+    "clabel": (["map"], st.sampled_from(["colour label", "C", ""])),
     "xlim": (["line", "pithist", "igncontrib"], st.sampled_from([[1.0, 30.0], [0.5, 100.0], [0.25, 0.75]])),
     "ylim": (["line", "bar", "pithist", "igncontrib", "obsfcst", "qq", "freq", "roc", "timeseries", "scatter", "marginal", "spreadskill", "error", "cond"], st.sampled_from([[0.5, 5.0], [1.0, 20.0], [0.1, 3.5]])),
     "clim": (["map"], st.sampled_from([[0.0, 5.0], [1.0, 2.0]])),
@@ -471,8 +471,21 @@ def check_styles(case, ctx):
                     break
 
 
+def text_items(tier):
+    """Every kind of figure x every text option x {a text, the empty text (= remove it)}, one option at a time."""
+    items = []
+    for kind in sorted(set(KINDS)):
+        for opt in ("title", "xlabel", "ylabel", "clabel"):
+            if kind not in OPTIONS[opt][0]:
+                continue
+            for val in ("Some text", ""):
+                items.append({"kind": kind, "shape": "full2", "opts": {opt: val}, "ext": "png"})
+    return items
+
+
 def campaigns(tier):
     return [
+        Enum("texts", text_items, check_figure, "every kind of figure x -title/-xlabel/-ylabel/-clabel x {text, empty text}"),
         Hyp("figures", strategy, check_figure, quick=720, thorough=40000, budget_quick=75, budget_thorough=2400),
         Hyp("styles", styles_strategy, check_styles, quick=480, thorough=12000, budget_quick=40, budget_thorough=1200),
     ]
